@@ -517,6 +517,10 @@ def brokerOpV (st : BkState) (impl : String) (ws : List String) : Option (BkStat
     | _ => core
   match brokerOp st impl ws with
   | some (st', m, _, g) =>
+    if impl.startsWith "panic" then
+      -- the real code panicked while serving this op (recovered by the harness when it ran in the harness's
+      -- own goroutine; in a connection goroutine the process dies and bin/check reports the crash)
+      some (st', m, fail "C28" "-" "the broker panicked while serving this op", g) else
     let (st'', c12) := c12Update st' st.srv st'.srv ws (parseImplOut core) flags
     let (st2b, c09) := c09Update st'' st.srv st'.srv ws (parseImplOut core)
     let (st3, c11) := c11Update st2b st.srv st'.srv ws (parseImplOut core)
